@@ -42,6 +42,33 @@ class PixelLogits(nn.Module):
         return y + bias[None, :, None]
 
 
+class PixelLogitsMasked(nn.Module):
+    """PixelLogits whose class `masked` is switched off the way some networks do it: its logit is -inf in every frame"""
+
+    def __init__(self, n_classes: int, pool: int, bias_blank: float, offset: float, masked: int):
+        super().__init__()
+        self.base = PixelLogits(n_classes, pool, bias_blank, 0, offset)
+        self.masked = masked
+
+    def forward(self, x):
+        y = self.base(x)
+        y[:, self.masked, :] = float('-inf')
+        return y
+
+
+def make_masked_engine(n_classes, characters, masked, line_px_height=8, pool=4, bias_blank=3.0, offset=0.25, batch_size=8):
+    from pero_ocr.ocr_engine.pytorch_ocr_engine import PytorchEngineLineOCR
+    os.makedirs(STUB_DIR, exist_ok=True)
+    p = os.path.join(STUB_DIR, f'pixlogits_masked_c{n_classes}_p{pool}_b{bias_blank}_o{offset}_m{masked}.pt')
+    if not os.path.exists(p + '.cpu'):
+        m = torch.jit.script(PixelLogitsMasked(n_classes, pool, float(bias_blank), float(offset), masked))
+        tmp = p + f'.cpu.{os.getpid()}.tmp'
+        m.save(tmp)
+        os.replace(tmp, p + '.cpu')
+    js = engine_json(f'engine_masked_c{n_classes}_m{masked}_h{line_px_height}', p, characters, line_px_height)
+    return PytorchEngineLineOCR(js, torch.device('cpu'), batch_size=batch_size)
+
+
 class PixelLogitsEmbed(nn.Module):
     """PixelLogits with a second input (embedding ids, as engines with `embed_id` pass): id k favours class k by a constant"""
 
